@@ -1286,3 +1286,17 @@ func (p *Prog) writersOf(g *ssa.Global) []string {
 	}
 	return p.gwriters[g]
 }
+
+// writersOfKey: like writersOf, by global key "pkg/path.Name".
+func (p *Prog) writersOfKey(key string) []string {
+	i := strings.LastIndex(key, ".")
+	sp := p.SSA.ImportedPackage(key[:i])
+	if sp == nil {
+		return nil
+	}
+	g, ok := sp.Members[key[i+1:]].(*ssa.Global)
+	if !ok {
+		return []string{"<unknown global " + key + ">"}
+	}
+	return p.writersOf(g)
+}
